@@ -35,6 +35,11 @@ chk("C10", "exploration",
     "The fresh server is the reference model; per-module diagnostics are compared as sorted lists and bullet lists inside a message as sets (their order follows hashing, which is C12's subject); histories are sampled.",
     "runtime monitoring: differential oracle against an executable reference model after every step of generated histories", "DESIGN.md §4 C10")
 
+chk("C11", "exploration",
+    "Generated edit histories (identifiers longer than 15 bytes in every identifier position, so that names live in the GC-managed heap) interleaved with every request kind (diagnostics rendering, hover, completion, signature help, definition, references, rename, code actions, format, folding ranges) at token boundaries and out-of-range positions of touched, untouched, just-removed and just-renamed modules, each request under catch_unwind in subprocess workers; the heap invariant hook runs after every operation; bulk histories with > 10 000 heap strings make the incremental sweeper run in slices. Held = no panic, abort, hang or heap-invariant failure on the histories executed.",
+    "Histories and positions are sampled; the real CLI's JSON-RPC layer is not driven (requests go to the services API the CLI forwards to).",
+    "runtime monitoring: panic/abort monitor over generated request histories in subprocess workers + heap invariant hook", "DESIGN.md §4 C11")
+
 NA_REASON = "check under construction in this round (machinery not yet registered)"
 m = {
  "version": 1,
